@@ -81,25 +81,44 @@ func r14_1(c *Ctx, r *Report) {
 	}
 	r.check(len(bad) == 0, rule, "every record of HolidayUtil.data is well-formed", pos, fmt.Sprintf("%d records; malformed: %v", n, headList(bad, 5)))
 	r.check(len(unsorted) == 0, rule, "HolidayUtil.data is strictly sorted by day", pos, fmt.Sprintf("out-of-order days: %v (the prefix scans stop at the first record that does not match)", headList(unsorted, 5)))
-	// builder offsets
-	if fn := c.Fn(r, rule, "HolidayUtil.buildHolidayForward"); fn != nil {
-		var cuts []string
-		for _, b := range fn.Blocks {
-			for _, ins := range b.Instrs {
-				if sl, ok := ins.(*ssa.Slice); ok && sl.X == ssa.Value(fn.Params[0]) {
-					lo, hi := int64(0), int64(-1)
-					if sl.Low != nil {
-						lo, _ = constInt(sl.Low)
-					}
-					if sl.High != nil {
-						hi, _ = constInt(sl.High)
-					}
-					cuts = append(cuts, fmt.Sprintf("%d:%d", lo, hi))
+	// builder offsets: the record builder is followed on records that differ in every field; the four values it
+	// hands to NewHoliday are day = record[0:8], name = NAMES[digit at 8], work = (flag at 9 is '0'), target = record[10:18]
+	if fn := c.Fn(r, rule, "HolidayUtil.buildHolidayForward"); fn != nil && len(fn.Params) == 1 {
+		names := c.tabStrs(r, rule, "HolidayUtil", "NAMES")
+		var bad []string
+		n := 0
+		for _, rec := range []string{"200112290020020101", "201502181120150219", "202510117020251001", "199901013119990102"} {
+			if len(names) < 8 {
+				break
+			}
+			var got []string
+			var ev *evaluator
+			leaf := func(fr *evalFrame, v ssa.Value) (interface{}, bool) {
+				if p, ok := v.(*ssa.Parameter); ok && fr.parent == nil && p == fn.Params[0] {
+					return rec + "TRAILING", true // the builder is handed the rest of the table, not one record
 				}
+				if call, ok := v.(*ssa.Call); ok && call.Common().StaticCallee() != nil && call.Common().StaticCallee().Name() == "NewHoliday" && len(call.Common().Args) == 4 {
+					got = nil
+					for _, a := range call.Common().Args {
+						o, ok := ev.eval(fr, a, 0)
+						if !ok {
+							o = "?"
+						}
+						got = append(got, fmt.Sprint(o))
+					}
+					return absPtr{"holiday", false}, true
+				}
+				return nil, false
+			}
+			ev = &evaluator{leaf: leaf, inline: inlineLibrary}
+			_, outcome := ev.run(fn, nil, nil, nil, nil)
+			n++
+			want := []string{rec[0:8], names[rec[8]-'0'], fmt.Sprint(rec[9] == '0'), rec[10:18]}
+			if outcome != "return" || !equalStrs(got, want) {
+				bad = append(bad, fmt.Sprintf("record %s: NewHoliday(%s) [%s %s], stated (%s)", rec, strings.Join(got, ", "), outcome, ev.fail, strings.Join(want, ", ")))
 			}
 		}
-		sort.Strings(cuts)
-		r.check(equalStrs(cuts, []string{"0:8", "10:18", "8:9", "9:10"}), rule, "HolidayUtil.buildHolidayForward slices the record at 0:8, 8:9, 9:10, 10:18", c.fnPos(fn), strings.Join(cuts, " "))
+		r.check(len(bad) == 0 && n == 4, rule, "HolidayUtil.buildHolidayForward reads day, name digit, work flag and target at 0:8, 8, 9, 10:18", c.fnPos(fn), fmt.Sprintf("%d records followed; deviations: %v", n, headList(bad, 2)))
 	}
 	// key formats
 	for _, t := range []struct{ fn, format string }{{"HolidayUtil.GetHolidayByYmd", "%04d%02d%02d"}, {"HolidayUtil.GetHolidaysByYm", "%04d%02d"}, {"HolidayUtil.GetHolidaysByYear", "%04d"}, {"HolidayUtil.GetHolidaysByTargetYmd", "%04d%02d%02d"}} {
